@@ -24,6 +24,7 @@ import (
 	"encoding/json"
 	"fmt"
 	"math/rand"
+	"reflect"
 	"sort"
 	"strings"
 	"time"
@@ -1169,6 +1170,369 @@ func c03SecondInput(s *chain.Sim, rng *rand.Rand, pd *c03Pending, ts time.Time, 
 	return
 }
 
+
+// ---------------------------------------------------------------- Foundation update hijack (directed family)
+
+type c03Case struct {
+	key      string // violation key if the expectation fails
+	kind     string // recorded in the replay ("tamper")
+	accept   bool   // expected verdict
+	judged   bool   // false: recorded only (content nobody signed)
+	block    types.Block
+	supp     consensus.V1BlockSupplement
+	describe string
+}
+
+// c03SignV1 makes the signatures of one input: whole-transaction, or partial with the given covered fields.
+func c03SignV1(cs consensus.State, txn *types.Transaction, parent types.Hash256, r *chain.Recipe, whole bool, cf types.CoveredFields) []types.TransactionSignature {
+	var out []types.TransactionSignature
+	for i, k := range r.Keys {
+		sg := types.TransactionSignature{ParentID: parent, PublicKeyIndex: r.UCKeyIdx[i]}
+		var h types.Hash256
+		if whole {
+			sg.CoveredFields = types.CoveredFields{WholeTransaction: true}
+			h = cs.WholeSigHash(*txn, parent, sg.PublicKeyIndex, 0, nil)
+		} else {
+			sg.CoveredFields = cf
+			h = cs.PartialSigHash(*txn, cf)
+		}
+		sig := k.SignHash(h)
+		sg.Signature = sig[:]
+		out = append(out, sg)
+	}
+	return out
+}
+
+// c03RealSigner: spending needs at least one Ed25519 signature (keys of unrecognised algorithms verify by
+// default — soft-fork room — and bind nothing).
+func c03RealSigner(r *chain.Recipe) bool {
+	if r == nil || len(r.Keys) == 0 || r.UC == nil || r.UC.SignaturesRequired == 0 {
+		return false
+	}
+	for _, k := range r.UC.PublicKeys {
+		if k.Algorithm != types.SpecifierEd25519 {
+			return false
+		}
+	}
+	return true
+}
+
+func c03PickFoundationSC(s *chain.Sim) (types.SiacoinElement, bool) {
+	var ids []types.SiacoinOutputID
+	for id := range s.St.SC {
+		ids = append(ids, id)
+	}
+	sort.Slice(ids, func(i, j int) bool { return bytes.Compare(ids[i][:], ids[j][:]) < 0 })
+	child := s.ChildHeight()
+	for _, id := range ids {
+		e := s.St.SC[id]
+		a := e.SiacoinOutput.Address
+		if a != s.Tip.FoundationSubsidyAddress && a != s.Tip.FoundationManagementAddress {
+			continue
+		}
+		r := s.RecipeFor(a)
+		if !c03RealSigner(r) || !r.V1Spendable() || e.MaturityHeight > child || e.SiacoinOutput.Value.Cmp(types.NewCurrency64(10)) < 0 || !s.Spendable(a, false) {
+			continue
+		}
+		return e, true
+	}
+	return types.SiacoinElement{}, false
+}
+
+func c03PickOtherSC(s *chain.Sim, v2 bool) (types.SiacoinElement, bool) {
+	var ids []types.SiacoinOutputID
+	for id := range s.St.SC {
+		ids = append(ids, id)
+	}
+	sort.Slice(ids, func(i, j int) bool { return bytes.Compare(ids[i][:], ids[j][:]) < 0 })
+	child := s.ChildHeight()
+	for _, id := range ids {
+		e := s.St.SC[id]
+		a := e.SiacoinOutput.Address
+		r := s.RecipeFor(a)
+		if a == s.Tip.FoundationSubsidyAddress || a == s.Tip.FoundationManagementAddress || !c03RealSigner(r) || (!v2 && !r.V1Spendable()) ||
+			e.MaturityHeight > child || e.SiacoinOutput.Value.Cmp(types.NewCurrency64(10)) < 0 || !s.Spendable(a, v2) {
+			continue
+		}
+		return e, true
+	}
+	return types.SiacoinElement{}, false
+}
+
+// c03FoundationHijack: a v1 transaction with a Foundation-address input and a second party's input carrying
+// a FoundationAddressUpdate that names the second party's addresses, in every combination of how the two
+// parties sign and of when the update is appended. Statement: "Foundation subsidy addresses change only in a
+// transaction authorized by the current Foundation keys": the update is authorised iff a WHOLE-transaction
+// signature made with the Foundation input's key covers it.
+func c03FoundationHijack(s *chain.Sim, rng *rand.Rand, ts time.Time, miner types.Address) (out []c03Case) {
+	child := s.ChildHeight()
+	if s.V1Forbidden() || child < s.Net.HardforkFoundation.Height {
+		return nil
+	}
+	f, ok1 := c03PickFoundationSC(s)
+	o, ok2 := c03PickOtherSC(s, false)
+	if !ok1 || !ok2 {
+		return nil
+	}
+	fr, or := s.RecipeFor(f.SiacoinOutput.Address), s.RecipeFor(o.SiacoinOutput.Address)
+	thief := c03Attacker(s, rng)
+	upd := append(append([]byte{}, types.SpecifierFoundation[:]...), chain.Encode(types.FoundationAddressUpdate{NewPrimary: thief.Addr, NewFailsafe: thief.Addr})...)
+	base := types.Transaction{
+		SiacoinInputs:  []types.SiacoinInput{{ParentID: f.ID, UnlockConditions: *fr.UC}, {ParentID: o.ID, UnlockConditions: *or.UC}},
+		SiacoinOutputs: []types.SiacoinOutput{{Value: f.SiacoinOutput.Value, Address: c03Attacker(s, rng).Addr}, {Value: o.SiacoinOutput.Value, Address: thief.Addr}},
+	}
+	supp := consensus.V1BlockSupplement{Transactions: []consensus.V1TransactionSupplement{{SiacoinInputs: []types.SiacoinElement{f.Copy(), o.Copy()}}}}
+	for _, fm := range []string{"whole", "partial-own", "partial-all-but-arbitrary-data", "absent"} {
+		for _, om := range []string{"whole", "partial"} {
+			for _, order := range []string{"before", "after"} {
+				txn := cloneV1(base)
+				if order == "before" {
+					txn.ArbitraryData = [][]byte{upd}
+				}
+				var fsigs []types.TransactionSignature
+				switch fm {
+				case "whole":
+					fsigs = c03SignV1(s.Tip, &txn, types.Hash256(f.ID), fr, true, types.CoveredFields{})
+				case "partial-own":
+					fsigs = c03SignV1(s.Tip, &txn, types.Hash256(f.ID), fr, false, types.CoveredFields{SiacoinInputs: []uint64{0}, SiacoinOutputs: []uint64{0}})
+				case "partial-all-but-arbitrary-data":
+					fsigs = c03SignV1(s.Tip, &txn, types.Hash256(f.ID), fr, false, types.CoveredFields{SiacoinInputs: []uint64{0, 1}, SiacoinOutputs: []uint64{0, 1}})
+				}
+				if order == "after" {
+					txn.ArbitraryData = [][]byte{upd}
+				}
+				// the second party signs last, over the transaction as it goes to the chain
+				var osigs []types.TransactionSignature
+				if om == "whole" {
+					osigs = c03SignV1(s.Tip, &txn, types.Hash256(o.ID), or, true, types.CoveredFields{})
+				} else {
+					osigs = c03SignV1(s.Tip, &txn, types.Hash256(o.ID), or, false, types.CoveredFields{SiacoinInputs: []uint64{1}, SiacoinOutputs: []uint64{1}, ArbitraryData: []uint64{0}})
+				}
+				txn.Signatures = append(fsigs, osigs...)
+				blk := types.Block{Timestamp: ts, Transactions: []types.Transaction{txn}}
+				if s.V2Allowed() {
+					blk.V2 = &types.V2BlockData{}
+				}
+				s.Seal(&blk, miner)
+				combo := "foundation=" + fm + ",other=" + om + ",update=" + order + "-foundation-signed"
+				authorised := fm == "whole" && order == "before"
+				c := c03Case{kind: "foundation-hijack:" + combo, accept: authorised, judged: true, block: blk, supp: chain.CopySupp(supp), describe: combo}
+				if authorised {
+					c.key = "c03-untampered-rejected:foundation-update:" + combo
+				} else {
+					c.key = "c03-foundation-update-unauthorised-accepted:" + combo
+				}
+				out = append(out, c)
+			}
+		}
+	}
+	// v2: the rule is "spends an input controlled by the current management address" (every input signs the
+	// input sighash, which covers NewFoundationAddress)
+	if s.V2Allowed() {
+		var mg types.SiacoinElement
+		found := false
+		var ids []types.SiacoinOutputID
+		for id := range s.St.SC {
+			ids = append(ids, id)
+		}
+		sort.Slice(ids, func(i, j int) bool { return bytes.Compare(ids[i][:], ids[j][:]) < 0 })
+		for _, id := range ids {
+			e := s.St.SC[id]
+			if e.SiacoinOutput.Address == s.Tip.FoundationManagementAddress && e.MaturityHeight <= child && !e.SiacoinOutput.Value.IsZero() && s.Spendable(e.SiacoinOutput.Address, true) {
+				mg, found = e, true
+				break
+			}
+		}
+		o2, ok := c03PickOtherSC(s, true)
+		if found && ok {
+			addr := thief.Addr
+			mk := func(kind string, accept bool, edit func(t *types.V2Transaction) bool) {
+				t := types.V2Transaction{SiacoinInputs: []types.V2SiacoinInput{{Parent: mg.Copy()}, {Parent: o2.Copy()}},
+					SiacoinOutputs: []types.SiacoinOutput{{Value: mg.SiacoinOutput.Value.Add(o2.SiacoinOutput.Value), Address: c03Attacker(s, rng).Addr}}, NewFoundationAddress: &addr}
+				if !s.ResignV2(&t) || !edit(&t) {
+					return
+				}
+				blk := types.Block{Timestamp: ts, V2: &types.V2BlockData{Transactions: []types.V2Transaction{t}}}
+				s.Seal(&blk, miner)
+				c := c03Case{kind: "foundation-hijack:" + kind, accept: accept, judged: true, block: blk, describe: kind}
+				if accept {
+					c.key = "c03-untampered-rejected:foundation-update:" + kind
+				} else {
+					c.key = "c03-foundation-update-unauthorised-accepted:" + kind
+				}
+				out = append(out, c)
+			}
+			mk("v2-honest", true, func(t *types.V2Transaction) bool { return true })
+			mk("v2-address-changed-after-signing", false, func(t *types.V2Transaction) bool {
+				a := flipAddr(*t.NewFoundationAddress, rng)
+				t.NewFoundationAddress = &a
+				return true
+			})
+			mk("v2-without-foundation-input", false, func(t *types.V2Transaction) bool {
+				t.SiacoinInputs = t.SiacoinInputs[1:]
+				t.SiacoinOutputs[0].Value = o2.SiacoinOutput.Value
+				return s.ResignV2(t)
+			})
+			mk("v2-foundation-input-witness-dropped", false, func(t *types.V2Transaction) bool {
+				t.SiacoinInputs[0].SatisfiedPolicy.Signatures = nil
+				return true
+			})
+		}
+	}
+	return out
+}
+
+// c03PartialCoverage: a v1 transaction with TWO signers, the first signing partially (its own input and
+// output 0), the second whole or partially (its input, output 1, the fee). Every value field is changed once:
+// content covered by at least one signature must not change (rejected); content that nobody signed may
+// (recorded, not judged). Which element a signature covers is read off its CoveredFields by index.
+func c03PartialCoverage(s *chain.Sim, rng *rand.Rand, ts time.Time, miner types.Address) (out []c03Case) {
+	if s.V1Forbidden() {
+		return nil
+	}
+	a, ok1 := c03PickOtherSC(s, false)
+	if !ok1 {
+		return nil
+	}
+	var b types.SiacoinElement
+	ok2 := false
+	{
+		var ids []types.SiacoinOutputID
+		for id := range s.St.SC {
+			ids = append(ids, id)
+		}
+		sort.Slice(ids, func(i, j int) bool { return bytes.Compare(ids[i][:], ids[j][:]) > 0 })
+		child := s.ChildHeight()
+		for _, id := range ids {
+			e := s.St.SC[id]
+			r := s.RecipeFor(e.SiacoinOutput.Address)
+			ad := e.SiacoinOutput.Address
+			if id == a.ID || ad == s.Tip.FoundationSubsidyAddress || ad == s.Tip.FoundationManagementAddress || !c03RealSigner(r) || !r.V1Spendable() || e.MaturityHeight > child ||
+				e.SiacoinOutput.Value.Cmp(types.NewCurrency64(1000)) < 0 || !s.Spendable(ad, false) {
+				continue
+			}
+			b, ok2 = e, true
+			break
+		}
+	}
+	if !ok2 {
+		return nil
+	}
+	ra, rb := s.RecipeFor(a.SiacoinOutput.Address), s.RecipeFor(b.SiacoinOutput.Address)
+	fee := types.NewCurrency64(7)
+	extra := types.NewCurrency64(5)
+	for _, second := range []string{"whole", "partial"} {
+		txn := types.Transaction{
+			SiacoinInputs: []types.SiacoinInput{{ParentID: a.ID, UnlockConditions: *ra.UC}, {ParentID: b.ID, UnlockConditions: *rb.UC}},
+			SiacoinOutputs: []types.SiacoinOutput{{Value: a.SiacoinOutput.Value, Address: c03Attacker(s, rng).Addr},
+				{Value: b.SiacoinOutput.Value.Sub(fee).Sub(extra), Address: c03Attacker(s, rng).Addr}, {Value: extra, Address: c03Attacker(s, rng).Addr}},
+			MinerFees:     []types.Currency{fee},
+			ArbitraryData: [][]byte{[]byte("data nobody may have signed")},
+		}
+		cfA := types.CoveredFields{SiacoinInputs: []uint64{0}, SiacoinOutputs: []uint64{0}}
+		cfB := types.CoveredFields{SiacoinInputs: []uint64{1}, SiacoinOutputs: []uint64{1}, MinerFees: []uint64{0}}
+		sa := c03SignV1(s.Tip, &txn, types.Hash256(a.ID), ra, false, cfA)
+		sb := c03SignV1(s.Tip, &txn, types.Hash256(b.ID), rb, second == "whole", cfB)
+		txn.Signatures = append(sa, sb...)
+		supp := consensus.V1BlockSupplement{Transactions: []consensus.V1TransactionSupplement{{SiacoinInputs: []types.SiacoinElement{a.Copy(), b.Copy()}}}}
+		mkBlock := func(t types.Transaction) types.Block {
+			blk := types.Block{Timestamp: ts, Transactions: []types.Transaction{t}}
+			if s.V2Allowed() {
+				blk.V2 = &types.V2BlockData{}
+			}
+			s.Seal(&blk, miner)
+			return blk
+		}
+		name := "v1-two-signers:first-partial,second-" + second
+		out = append(out, c03Case{key: "c03-untampered-rejected:" + name, kind: name + ":honest", accept: true, judged: true, block: mkBlock(cloneV1(txn)), supp: chain.CopySupp(supp), describe: name})
+		// what the signatures cover, by list and index (a whole-transaction signature covers every element)
+		covered := func(list string, i int) bool {
+			if second == "whole" {
+				return true
+			}
+			in := func(xs []uint64) bool {
+				for _, x := range xs {
+					if int(x) == i {
+						return true
+					}
+				}
+				return false
+			}
+			switch list {
+			case "SiacoinInputs":
+				return in(cfA.SiacoinInputs) || in(cfB.SiacoinInputs)
+			case "SiacoinOutputs":
+				return in(cfA.SiacoinOutputs) || in(cfB.SiacoinOutputs)
+			case "MinerFees":
+				return in(cfB.MinerFees)
+			}
+			return false
+		}
+		body := struct {
+			SiacoinInputs  []types.SiacoinInput
+			SiacoinOutputs []types.SiacoinOutput
+			MinerFees      []types.Currency
+			ArbitraryData  [][]byte
+		}{}
+		leaves := c12Leaves(reflect.ValueOf(&struct {
+			SiacoinInputs  []types.SiacoinInput
+			SiacoinOutputs []types.SiacoinOutput
+			MinerFees      []types.Currency
+			ArbitraryData  [][]byte
+		}{txn.SiacoinInputs, txn.SiacoinOutputs, txn.MinerFees, txn.ArbitraryData}).Elem())
+		_ = body
+		taken := 0
+		for _, n := range rng.Perm(len(leaves)) {
+			l := leaves[n]
+			if l.kind != "value" || taken >= 30 {
+				continue
+			}
+			taken++
+			m := cloneV1(txn)
+			view := &struct {
+				SiacoinInputs  []types.SiacoinInput
+				SiacoinOutputs []types.SiacoinOutput
+				MinerFees      []types.Currency
+				ArbitraryData  [][]byte
+			}{m.SiacoinInputs, m.SiacoinOutputs, m.MinerFees, m.ArbitraryData}
+			c12MutateNth(rng, reflect.ValueOf(view).Elem(), n)
+			m.SiacoinInputs, m.SiacoinOutputs, m.MinerFees, m.ArbitraryData = view.SiacoinInputs, view.SiacoinOutputs, view.MinerFees, view.ArbitraryData
+			// which element changed (statement level: compare the encodings element by element)
+			touchesCovered, changed := false, false
+			for i := range txn.SiacoinInputs {
+				if !bytes.Equal(chain.Encode(txn.SiacoinInputs[i]), chain.Encode(m.SiacoinInputs[i])) {
+					changed = true
+					touchesCovered = touchesCovered || covered("SiacoinInputs", i)
+				}
+			}
+			for i := range txn.SiacoinOutputs {
+				if !bytes.Equal(chain.Encode(types.V1SiacoinOutput(txn.SiacoinOutputs[i])), chain.Encode(types.V1SiacoinOutput(m.SiacoinOutputs[i]))) {
+					changed = true
+					touchesCovered = touchesCovered || covered("SiacoinOutputs", i)
+				}
+			}
+			for i := range txn.MinerFees {
+				if txn.MinerFees[i] != m.MinerFees[i] {
+					changed = true
+					touchesCovered = touchesCovered || covered("MinerFees", i)
+				}
+			}
+			for i := range txn.ArbitraryData {
+				if !bytes.Equal(txn.ArbitraryData[i], m.ArbitraryData[i]) {
+					changed = true
+					touchesCovered = touchesCovered || covered("ArbitraryData", i)
+				}
+			}
+			if !changed {
+				continue
+			}
+			k := name + ":" + l.path
+			out = append(out, c03Case{key: "c03-tamper-accepted:" + k, kind: k, accept: false, judged: touchesCovered, block: mkBlock(m), supp: chain.CopySupp(supp), describe: k})
+		}
+	}
+	return out
+}
+
 // c03InBlockRotation builds a block [key-rotating revision of X ; renewal of X] in which the
 // renewal is signed by (a) the pre-block keys, (b) the keys as they stand after the revision.
 func c03InBlockRotation(s *chain.Sim, ts time.Time, miner types.Address) (pre, post *mutant) {
@@ -1242,13 +1606,26 @@ func c03Why(e string) string {
 		e = e[i+len("is invalid: "):]
 	}
 	for _, k := range []string{"superfluous signature", "superfluous preimage", "invalid signature", "invalid preimage", "threshold not reached",
-		"opaque policy", "claims incorrect value", "claims incorrect maturity height", "nonexistent ephemeral output", "claims incorrect policy", "claims incorrect unlock conditions", "is invalid", "is redundant", "uses an entropy public key", "missing signatures", "nonexistent public key",
+		"do not equal outputs", "opaque policy", "claims incorrect value", "claims incorrect maturity height", "nonexistent ephemeral output", "claims incorrect policy", "claims incorrect unlock conditions", "is invalid", "is redundant", "uses an entropy public key", "missing signatures", "nonexistent public key",
 		"unsigned FoundationAddressUpdate", "does not spend an input controlled by current address", "has invalid renter signature",
 		"has invalid host signature", "attestation", "timelock", "references parent not present", "opaque policy"} {
 		if strings.Contains(e, k) {
 			return k
 		}
 	}
+	for _, k := range []string{"nonexistent siacoin output", "immature", "double-spends"} {
+		if strings.Contains(e, k) {
+			return k
+		}
+	}
+	// drop ids and numbers: keep the words
+	var sb strings.Builder
+	for _, w := range strings.Fields(e) {
+		if len(w) < 20 && !strings.ContainsAny(w, "0123456789") {
+			sb.WriteString(w + " ")
+		}
+	}
+	e = strings.TrimSpace(sb.String())
 	if len(e) > 60 {
 		e = e[len(e)-60:]
 	}
@@ -1360,6 +1737,44 @@ func runC03(c *fw.Ctx) {
 					att = keep
 				}
 				ms = append(att, ms...)
+			}
+			// directed families: Foundation update hijack; two signers with partial coverage
+			if k%3 == 2 && (!replaying || height == only.Replay.Height) {
+				cases := append(c03FoundationHijack(s, x.rng, p.Block.Timestamp, p.Miner), c03PartialCoverage(s, x.rng, p.Block.Timestamp, p.Miner)...)
+				for _, cse := range cases {
+					if replaying && cse.kind != only.Replay.Tamper {
+						continue
+					}
+					var err error
+					panicked, msg := fw.Recover(func() { err = consensus.ValidateBlock(s.Tip, cse.block, cse.supp) })
+					accepted := err == nil && !panicked
+					res.Eval(fmt.Sprintf("%s/%d/%d/%s", mode, seed, height, cse.kind), true)
+					fam := cse.kind
+					if i := strings.Index(fam, ":"); i >= 0 {
+						fam = fam[:i]
+					}
+					if !cse.judged {
+						res.Count(fmt.Sprintf("unsigned-content:%s:accepted=%v", fam, accepted))
+						continue
+					}
+					res.Count(fmt.Sprintf("directed:%s:expected-accept=%v", fam, cse.accept))
+					if err != nil {
+						res.Count("why:" + fam + ":" + c03Why(err.Error()))
+					}
+					rp := map[string]any{"mode": mode, "seed": seed, "height": height, "tamper": cse.kind, "block": fw.Hex(chain.Encode(types.V2Block(cse.block)))}
+					switch {
+					case panicked:
+						res.Violate(fw.Violation{Key: "c10-validate-panic:" + fam, What: "ValidateBlock panicked: " + msg, Replay: rp})
+					case accepted != cse.accept && cse.accept:
+						res.Violate(fw.Violation{Key: cse.key, What: "an honest, fully authorised transaction was rejected (" + cse.describe + "): " + err.Error(), Replay: rp, Expected: "accepted", Observed: "rejected"})
+					case accepted != cse.accept:
+						res.Violate(fw.Violation{Key: cse.key, What: "ValidateBlock accepted content that no valid signature of the entitled key covers (" + cse.describe + ")", Replay: rp, Expected: "rejected", Observed: "accepted"})
+					}
+					if c.Model != nil && !accepted && !panicked {
+						x.ops = append(x.ops, "ledger-block "+ab.Abstract(cse.block, cse.supp))
+						x.outs = append(x.outs, "reject")
+					}
+				}
 			}
 			// two outputs paid to ONE address by the previous (inserted) block, spent together: honest spends must be
 			// accepted; a corrupted witness on the second input only (or the first only) must be rejected
